@@ -1,4 +1,5 @@
 import TrackpyV.Model.Linker
+import TrackpyV.Proofs.Assign
 /-!
 Structure of the sub-nets computed by `Linker.subnets` (mirror of `Subnets.reset/compute` +
 `assign_subnet`): the groups partition the destinations, and they are closed under candidate
@@ -225,5 +226,75 @@ theorem step_groups_disjoint (cfg : Cfg) (st : State) (t : Int) (dsts : List Pos
   intro A B hA hB hAB x hxA hxB
   exact hAB x (groupDests_gSrcs_subset _ A _ _ hinv hA x hxA)
     (groupDests_gSrcs_subset _ B _ _ hinv hB x hxB)
+
+/-! ### candidate lists are sorted by cost, the null candidate last -/
+
+theorem sortedC_cons_iff (a : Cand) (l : List Cand) :
+    SortedC (a :: l) ↔ (∀ x ∈ l, a.2 ≤ x.2) ∧ SortedC l := by
+  constructor
+  · intro h; exact ⟨SortedC.head_le h, SortedC.tail h⟩
+  · rintro ⟨h1, h2⟩
+    cases l with
+    | nil => trivial
+    | cons b t => exact ⟨h1 b (List.mem_cons_self ..), h2⟩
+
+theorem insCand_sorted (c : Cand) (l : List Cand) (h : SortedC l) : SortedC (insCand c l) := by
+  induction l with
+  | nil => simp [insCand, SortedC]
+  | cons x xs ih =>
+    simp only [insCand]
+    split
+    · rename_i hlt
+      rw [sortedC_cons_iff]
+      refine ⟨?_, h⟩
+      intro y hy
+      rcases List.mem_cons.mp hy with rfl | hy
+      · exact Nat.le_of_lt hlt
+      · exact Nat.le_trans (Nat.le_of_lt hlt) (SortedC.head_le h y hy)
+    · rename_i hge
+      rw [sortedC_cons_iff]
+      refine ⟨?_, ih (SortedC.tail h)⟩
+      intro y hy
+      rcases (mem_insCand c y xs).mp hy with rfl | hy
+      · exact Nat.le_of_not_lt hge
+      · exact SortedC.head_le h y hy
+
+theorem foldr_insCand_sorted (l : List Cand) : SortedC (l.foldr insCand []) := by
+  induction l with
+  | nil => trivial
+  | cons x xs ih => exact insCand_sorted x _ ih
+
+theorem sortedC_append_last (l : List Cand) (z : Cand) (h : SortedC l) (hz : ∀ x ∈ l, x.2 ≤ z.2) :
+    SortedC (l ++ [z]) := by
+  induction l with
+  | nil => trivial
+  | cons a t ih =>
+    rw [List.cons_append, sortedC_cons_iff]
+    refine ⟨?_, ih (SortedC.tail h) (fun x hx => hz x (List.mem_cons_of_mem _ hx))⟩
+    intro x hx
+    rcases List.mem_append.mp hx with hx | hx
+    · exact SortedC.head_le h x hx
+    · simp only [List.mem_singleton] at hx
+      subst hx
+      exact hz a (List.mem_cons_self ..)
+
+/-- what `assign_links` establishes and the solver's pruning relies on: every candidate list is
+ascending in cost and the null link, appended last, is the most expensive entry -/
+theorem candsOf_sorted (cfg : Cfg) (t : Int) (dsts : List Pos) (s : Source) :
+    SortedC (candsOf cfg t dsts s) := by
+  simp only [candsOf, candsOfRow]
+  apply sortedC_append_last _ _ (foldr_insCand_sorted _)
+  intro x hx
+  rw [mem_foldr_insCand] at hx
+  simp only [List.mem_filterMap] at hx
+  obtain ⟨⟨d, j⟩, _, hc⟩ := hx
+  simp only at hc
+  split at hc
+  · rename_i hle; cases hc; exact hle
+  · cases hc
+
+theorem candsOf_hasNull (cfg : Cfg) (t : Int) (dsts : List Pos) (s : Source) :
+    (none, cfg.B) ∈ candsOf cfg t dsts s := by
+  simp [candsOf, candsOfRow]
 
 end TrackpyV.Linker
